@@ -3,7 +3,7 @@ import MythVerif.Proofs.WsQueueTsoTac
 namespace MythVerif.WsqTso
 open MythVerif.Wsq
 
-set_option maxHeartbeats 1000000 in
+set_option maxHeartbeats 4000000 in
 theorem o_pt8 (s s' : St) (e b) : Inv s → s.opc = .pt8 e b → stepO s = some s' → Inv s' := by
   intro h heq hs
   obtain ⟨hbeq, hsh⟩ := h.pt8 e b heq
@@ -26,7 +26,7 @@ theorem o_pt8 (s s' : St) (e b) : Inv s → s.opc = .pt8 e b → stepO s = some 
       · exact Or.inl ⟨e, by simp [h6]⟩
   tso_rest
 
-set_option maxHeartbeats 1000000 in
+set_option maxHeartbeats 4000000 in
 theorem o_pt9 (s s' : St) : Inv s → s.opc = .pt9 → stepO s = some s' → Inv s' := by
   intro h heq hs
   have hcfg := h.cfg
